@@ -31,6 +31,8 @@ pub trait Sut: Send + Sync {
     fn finish(&self, _stalled: bool) -> Value {
         Value::Null
     }
+    /// last chance to tear things down and add what that showed to the observation (`hard`: a thread is stuck inside the code under test)
+    fn after_finish(&self, _obs: &mut Value, _hard: bool) {}
 }
 
 pub struct RunOut {
@@ -65,10 +67,13 @@ fn run_once(scn: &Value, strategy: &mut dyn Strategy, record_ops: bool) -> RunOu
     let hard = matches!(result.outcome, Outcome::Stalled | Outcome::StepLimit);
     let final_obs = if hard {
         // some thread is stuck inside the code under test: its state cannot be touched safely any more
+        let mut obs = json!({"hard": true, "len": 0, "drained": [], "free": []});
+        sut.after_finish(&mut obs, true);
         std::mem::forget(sut);
-        json!({"hard": true, "len": 0, "drained": [], "free": []})
+        obs
     } else {
-        let obs = std::panic::catch_unwind(std::panic::AssertUnwindSafe(|| sut.finish(!matches!(result.outcome, Outcome::Complete)))).unwrap_or_else(|_| json!({"panic": true}));
+        let mut obs = std::panic::catch_unwind(std::panic::AssertUnwindSafe(|| sut.finish(!matches!(result.outcome, Outcome::Complete)))).unwrap_or_else(|_| json!({"hard": false, "panic": true}));
+        let _ = std::panic::catch_unwind(std::panic::AssertUnwindSafe(|| sut.after_finish(&mut obs, false)));
         // the SUT is dropped here, on the controller thread, with hooks inactive
         drop(sut);
         obs
@@ -175,7 +180,7 @@ fn explore(scn: &Value, w: &mut Writer, summary: &mut Vec<Value>) {
             let seed = ex["seed"].as_u64().unwrap_or(1);
             let stay = ex["stay"].as_u64().unwrap_or(50);
             for i in 0..n {
-                let mut st = Random { rng: Xorshift(seed.wrapping_mul(0x9E3779B97F4A7C15).wrapping_add(i + 1) | 1), stay };
+                let mut st = Random { rng: Xorshift((seed.wrapping_mul(0x9E3779B97F4A7C15).wrapping_add(i + 1) << 1) | 1), stay };
                 // warm the generator
                 st.rng.next();
                 let out = run_once(scn, &mut st, record_ops);
